@@ -135,11 +135,11 @@ impl RetryPolicy {
 
                     sleep(delay).await;
 
-                    // Increase backoff
-                    backoff = Duration::from_secs_f64(
-                        (backoff.as_secs_f64() * self.multiplier)
-                            .min(self.max_backoff.as_secs_f64()),
-                    );
+                    // Increase backoff. A multiplier that makes the product negative, NaN or
+                    // too large for a Duration (all reachable through the environment) must
+                    // not panic: the backoff then stays at the maximum.
+                    backoff = Duration::try_from_secs_f64(backoff.as_secs_f64() * self.multiplier)
+                        .map_or(self.max_backoff, |next| next.min(self.max_backoff));
                 }
             }
         }
